@@ -10,7 +10,7 @@ from torch.utils._python_dispatch import _disable_current_modes
 from .. import sym as S
 from ..common import Check, Tally, ob, tier, replay_main, TIER
 from ..engine import fresh_reals, elems, from_arr
-from ..harness import sym_paths, decide_nra as decide, zor
+from ..harness import sym_paths, decide_nra as decide, decide_any, zor
 from ..sym import NotEncodable
 from .c07 import parts, sq, mean_power, bounds, with_draws
 
@@ -75,7 +75,7 @@ def run_supplied(item, tl):
         e = S.Cx(S.add(e.re, S.tocx(nz).re), S.add(e.im, S.tocx(nz).im))
         yy = S.tocx(y)
         bad += [S.zbool(S.ne(e.re, yy.re)), S.zbool(S.ne(e.im, yy.im))]
-    st, model = decide(ctx, zor(bad))
+    st, model = decide_any(ctx, bad)
     return [ob("supplied csi/noise: y = h.x + n, shape preserved", config, st, what="channel(x, csi=h, noise=n) != h*x + n" if st == "violated" else "",
                witness={"supplied": True} if st == "violated" else None, replay={"reproduced": True} if st == "violated" else None,
                sample=dict(query="exists x, h, n: channel(x, csi=h, noise=n) != h.x + n", shape=list(shape)), **tl.take())]
@@ -147,7 +147,7 @@ def run_generated(item, tl, mutate=None):
             bad = []
             for r in resid:
                 bad += [S.zbool(S.gt(r, 1e-3)), S.zbool(S.lt(r, -1e-3))]
-            st, model = decide(ctx, zor(bad), extra=dbound, budget_s=60)
+            st, model = decide_any(ctx, bad, extra=dbound, budget_s=60)
     else:
         bad = []
         for j in range(B * L):
@@ -156,7 +156,7 @@ def run_generated(item, tl, mutate=None):
                 lhs, rhs = S.mul(d, d), S.mul(S.mul(z, z), S.div(target, 2.0))
                 tol = S.add(S.mul(rhs, 1e-3), 1e-6)
                 bad += [S.zbool(S.gt(S.sub(lhs, rhs), tol)), S.zbool(S.lt(S.sub(lhs, rhs), S.neg(tol))), S.zbool(S.lt(S.mul(d, z), -1e-6))]
-        st, model = decide(ctx, zor(bad), extra=dbound, budget_s=60)
+        st, model = decide_any(ctx, bad, extra=dbound, budget_s=60)
     if st == "violated":
         w = {nm: float(S.zval(model, z3.Real(nm))) for nm in names}
         w["draws"] = [float(S.zval(model, g)) for g in R["draws"]]
